@@ -174,9 +174,7 @@ def dictSet {κ β : Type} [BEq κ] (k : κ) (v : β) : List (κ × β) → List
 
 /-- `_read_integer` (the leading `i` is consumed): optional `-`, digits up to `e`; rejects
     the empty numeral, leading zeros, `-0`; `int()` rejects more than `lim` digits -/
-def readInteger (lim : Nat) (s : Bytes) : Option (Int × Bytes) :=
-  let neg : Bool := match s with | 45 :: _ => true | _ => false
-  let s1 : Bytes := match s with | 45 :: t => t | _ => s
+def readDigitsInt (lim : Nat) (neg : Bool) (s1 : Bytes) : Option (Int × Bytes) :=
   let ds := (spanDigits s1).1
   match (spanDigits s1).2 with
   | 101 :: rest =>
@@ -186,6 +184,11 @@ def readInteger (lim : Nat) (s : Bytes) : Option (Int × Bytes) :=
     else if valDigits ds == 0 && neg then none
     else some (if neg then - (Int.ofNat (valDigits ds)) else Int.ofNat (valDigits ds), rest)
   | _ => none
+
+def readInteger (lim : Nat) (s : Bytes) : Option (Int × Bytes) :=
+  match s with
+  | 45 :: t => readDigitsInt lim true t
+  | _ => readDigitsInt lim false s
 
 /-- `_read_string`: `<digits>:` (leading zeros accepted, at least one digit, at most `lim`)
     then exactly that many bytes -/
